@@ -16,7 +16,8 @@ CLAUSES = (
     '`NAME=value` line per variable from the quoter\'s result; every branch '
     'of the quoter other than the leading-tilde forms returns the value '
     'inside double quotes, and the tilde forms quote the part after the first '
-    'slash. Not decided: value fidelity under bash word expansion (needs a '
+    'slash. the environment filter fills the filtered mapping in the order of '
+    'the [environment] section. Not decided: value fidelity under bash word expansion (needs a '
     'shell).')
 
 JF = 'job_file'
@@ -59,6 +60,35 @@ def check(c):
             "str(val), job_conf.get('param_var', {}))") != []
         c.ob('C41.definition', f'{w.fq} :: value from the quoter on str(val)',
              ok, c.where(defs, w), '')
+    # ---- the environment filter keeps the configured order: the filtered
+    # mapping is filled by iterating the task's [environment] itself (the
+    # include list only selects), into an ordered mapping
+    fe = c.func('config', 'WorkflowConfig.filter_env')
+    fills = [n for n in c.idx.walk(fe.node) if isinstance(n, ast.Assign)
+             and isinstance(n.targets[0], ast.Subscript)
+             and norm(n.targets[0].value) == 'nenv']
+    c.floor('C41.order', f'{fe.fq} :: filtered environment filled',
+            len(fills), 1)
+    for n in fills:
+        lp = n
+        while id(lp) in c.idx.parent and not isinstance(lp, ast.For):
+            lp = c.idx.parent[id(lp)]
+        it = norm(lp.iter) if isinstance(lp, ast.For) else ''
+        ok = it in ('oenv.items()', 'oenv', 'oenv.keys()')
+        c.ob('C41.order', c.key(n, fe) + ' in the order of the [environment] '
+             'section', ok, c.where(n, fe), it + ('' if ok else ' — the '
+             'filtered variables are defined in another order (a later '
+             'value may refer to an earlier one)'))
+    ne = [n for n in c.idx.walk(fe.node) if isinstance(n, ast.Assign)
+          and norm(n.targets[0]) == 'nenv']
+    c.ob('C41.order', f'{fe.fq} :: filtered environment is an ordered '
+         'mapping', len(ne) == 1 and norm(ne[0].value) in (
+             'OrderedDictWithDefaults()', '{}', 'dict()', 'OrderedDict()'),
+         c.where(fe.node, fe), '')
+    st = [n for n in c.idx.walk(fe.node) if isinstance(n, ast.Assign)
+          and norm(n.targets[0]) == "ns['environment']"]
+    c.ob('C41.order', f"{fe.fq} :: ns['environment'] = nenv", len(st) == 1
+         and norm(st[0].value) == 'nenv', c.where(fe.node, fe), '')
     # ---- quoter
     q = c.func(JF, 'JobFileWriter._get_variable_value_definition')
     rets = [r for r in c.idx.walk(q.node) if isinstance(r, ast.Return)]
@@ -88,6 +118,13 @@ def check(c):
 
 
 VARIANTS = [
+    ('filter-in-include-order', 'cylc/flow/config.py',
+     '''            for key, val in oenv.items():
+                if (not fincl or key in fincl) and key not in fexcl:
+                    nenv[key] = val''',
+     '''            for key in (fincl or oenv):
+                if key in oenv and key not in fexcl:
+                    nenv[key] = oenv[key]''', 'C41.order'),
     ('sorted-env', 'cylc/flow/job_file.py',
      "            for var, val in job_conf['environment'].items():",
      "            for var, val in sorted(job_conf['environment'].items()):",
